@@ -133,7 +133,7 @@ func (c *c10sChild) logTail() string {
 	return s
 }
 
-const c10sPerInput = 20 * time.Second // budget watchdog per input; firing = "slow", never a verdict
+const c10sPerInput = 6 * time.Second // budget watchdog per input; firing = "slow", never a verdict
 
 // send writes one client stream (split into 1..n byte writes), half-closes, and reads until the server is done with
 // the connection. done=false => the watchdog fired.
@@ -191,20 +191,34 @@ func (c *c10sChild) ping() bool {
 	return binary.BigEndian.Uint32(hdr[4:]) == 0x70696e67
 }
 
+// c10sFrames returns the payloads of the complete frames of a client stream, in order.
+func c10sFrames(in []byte) [][]byte {
+	var out [][]byte
+	for len(in) >= 4 {
+		n := int(int32(binary.BigEndian.Uint32(in)))
+		if n < 0 || 4+n > len(in) {
+			break
+		}
+		out = append(out, in[4:4+n])
+		in = in[4+n:]
+	}
+	return out
+}
+
 func c10sFirstPayload(in []byte) []byte {
-	if len(in) < 4 {
-		return nil
+	if f := c10sFrames(in); len(f) > 0 {
+		return f[0]
 	}
-	n := int(int32(binary.BigEndian.Uint32(in)))
-	if n < 0 || 4+n > len(in) {
-		return nil
-	}
-	return in[4 : 4+n]
+	return nil
 }
 
 func c10sClass(in []byte, trace string) string {
-	if strings.Contains(trace, "SkipTaggedFields") && verifkreq.HeaderTagSizeOverflows(c10sFirstPayload(in)) {
-		return "tagged_field_size_overflow"
+	if strings.Contains(trace, "SkipTaggedFields") {
+		for _, p := range c10sFrames(in) { // the server reads frame after frame; the first one that overflows is the one it died on
+			if verifkreq.HeaderTagSizeOverflows(p) {
+				return "tagged_field_size_overflow"
+			}
+		}
 	}
 	fn := "unknown"
 	for _, line := range strings.Split(trace, "\n") {
@@ -222,8 +236,8 @@ func c10sClass(in []byte, trace string) string {
 func TestVerifC10Server(t *testing.T) {
 	r := verifkit.Start(t, "C10", "server")
 	defer r.Finish("the corpus of the crash leg (sampled; tag-section mutations last) is sent over loopback TCP, split into 1..n byte writes, to the real broker.Server accept/handleConnection loop running in a child process with a handler that answers every parsed request; after the server has finished with each connection (EOF on the client side) a fresh connection must still get an ApiVersions reply. The server process dying is the violation (handleConnection has no recover: one client can take the broker down); it is reported only after that single input, sent alone to a fresh child, killed it again. non-trivial = the frame was complete, so the server's parser ran",
-		"per-input watchdog 20 s: an input that keeps the server busy that long is counted as slow and skipped (the codec's tag loop), not judged",
-		"after 4 confirmed deaths the remaining inputs are not sent (counter not_sent_after_deaths): every death costs a child restart")
+		"per-input watchdog 6 s: an input that keeps the server busy that long is counted as slow and skipped (the codec's tag loop), not judged",
+		"after 2 (quick) / 6 (thorough) server deaths the remaining inputs are not sent (counter not_sent_after_deaths): every death costs a child restart")
 	dir := os.Getenv("VERIF_SCRATCH")
 	if dir == "" {
 		dir = t.TempDir()
@@ -234,7 +248,7 @@ func TestVerifC10Server(t *testing.T) {
 	}
 	all := verifkreq.Corpus(r.Rand(0), verifkreq.CorpusSizes{Thorough: r.Thorough()})
 	// sample: keep the list a pure function of the seed; tag sections go last
-	keep := r.N(1500, 30000)
+	keep := r.N(700, 30000)
 	rng := r.Rand(1)
 	var first, tags []verifkreq.Input
 	for _, in := range all {
@@ -292,7 +306,7 @@ func TestVerifC10Server(t *testing.T) {
 		}
 	}()
 	deaths := 0
-	const maxDeaths = 4
+	maxDeaths := r.N(2, 6)
 	for i := 0; i < len(corpus); i++ {
 		in := corpus[i]
 		if deaths >= maxDeaths {
@@ -353,5 +367,5 @@ func TestVerifC10Server(t *testing.T) {
 		r.Sample(map[string]any{"kind": corpus[0].Kind, "input_hex": fmt.Sprintf("%x", corpus[0].Bytes[:min(len(corpus[0].Bytes), 96)])})
 		r.Sample(map[string]any{"kind": corpus[len(corpus)-1].Kind, "input_hex": fmt.Sprintf("%x", corpus[len(corpus)-1].Bytes[:min(len(corpus[len(corpus)-1].Bytes), 96)])})
 	}
-	r.Floor("parser_ran", 300)
+	r.Floor("parser_ran", 250)
 }
